@@ -5,6 +5,8 @@ grid.accumulate; argument-immutability of the two input grids."""
 import itertools
 import math
 
+import warnings
+
 import numpy as np
 
 from hyverif.oracles.flowgraph import FlowGraph
@@ -230,6 +232,47 @@ def run_case(ctx, case):
                       [], np.array(acc.data, copy=True), case)
 
 
+def run_huge_grid(ctx):
+    """a grid of 2^27 cells (1 GiB per array): 2^25 rows of four cells flowing east. Every
+    row is the same little catchment, so every row of the answer equals the rows of the
+    same pattern on a 1000-row grid (default unit field and a two-valued field)."""
+    g = mods()
+    outs = {}
+    for nr in (1000, 2 ** 25):
+        fd = g.Grid("fd", 4, nr, dtype=np.int64)
+        fd.fill(1)
+        for nm in ("default", "field"):
+            ta = None
+            if nm == "field":
+                ta = g.Grid("ta", 4, nr, dtype=np.float64, nodata=-9999.0)
+                ta.fill(0.5)
+                ta.data[:, 1] = 2.0
+            with warnings.catch_warnings():
+                warnings.simplefilter("ignore")
+                acc = g.accumulate(fd, ta, nprint=10 ** 9) if ta is not None else \
+                    g.accumulate(fd, nprint=10 ** 9)
+            a = np.asarray(acc.data)
+            first = a[0].copy()
+            uniform = bool(np.all(a == first[None, :]) if not np.isnan(first).any() else
+                           np.all((a == first[None, :]) | np.isnan(a)))
+            outs[(nr, nm)] = (first, uniform)
+            del acc, a, ta
+        del fd
+    ctx.evaluated()
+    ctx.tag("huge-grid")
+    ctx.api("accumulate", 4)
+    for nm in ("default", "field"):
+        small, big = outs[(1000, nm)], outs[(2 ** 25, nm)]
+        same = bool(np.all((small[0] == big[0]) | (np.isnan(small[0]) & np.isnan(big[0]))))
+        ctx.check("accumulate.huge-grid", same and small[1] and big[1],
+                  "accumulate|value|grid-of-2^27-cells",
+                  {"kind": "hugegrid", "field": nm},
+                  lambda: {"row_small_grid": small[0].tolist(),
+                           "row_huge_grid": big[0].tolist(),
+                           "all_rows_equal": [small[1], big[1]]})
+    ctx.nontrivial("huge", 2 ** 27)
+
+
 def run(ctx):
     maxc = 4 if ctx.tier == "quick" else 5
     rng = ctx.rng(1)
@@ -305,6 +348,8 @@ def run(ctx):
         run_case(ctx, {"kind": "acc", "codes": codes.tolist(),
                        "field": f.astype(float).tolist(), "nodata": float(nd),
                        "fieldname": "narrow-" + tdt, "ta_dtype": tdt})
+    if ctx.tier == "thorough" and ctx.shard == 0:
+        run_huge_grid(ctx)
     nrand = 10 if ctx.tier == "quick" else 800
     for it in range(nrand):
         if ctx.out_of_time():
@@ -326,4 +371,6 @@ def run(ctx):
 
 
 def replay(ctx, case):
+    if case.get("kind") == "hugegrid":
+        return run_huge_grid(ctx)
     run_case(ctx, case)
